@@ -268,6 +268,13 @@ class Interp:
             if op in ('+', '-', '*'):
                 _signed_check(res, e.get('t'), op)
             return wrap(res, e.get('t'))
+        if k == 'ctor':
+            # a copy / move / conversion wrapper around one value (T x = T{f()} before C++17): the value itself; the
+            # arguments are evaluated first so that call hooks see the calls inside
+            args = [self.ev(a, env, members) for a in (e.get('args') or [])]
+            if len(args) == 1:
+                return args[0]
+            raise Unsupported('constructor %s with %d arguments' % (e.get('cname'), len(args)))
         if k == 'call':
             name = e.get('cname')
             args = [self.ev(a, env, members) for a in (e.get('args') or [])]
